@@ -571,8 +571,14 @@ func (ex *Exec) setReg(fr *Frame, v ssa.Value, val Val) {
 	if val.LV == nil && val.Fn == nil && val.It == nil && val.Tup == nil {
 		leaves := flatten(val.T)
 		if len(leaves) == len(val.L) {
+			copied := false
 			for i, t := range val.L {
 				if len(t) > 48 {
+					if !copied {
+						// never write into a leaf slice that a cell or another state may share
+						val.L = append([]string(nil), val.L...)
+						copied = true
+					}
 					val.L[i] = ex.sc.define(v.Name(), leaves[i].Sort, t)
 				}
 			}
